@@ -20,20 +20,46 @@ func init() {
 	thoroughHooks = append(thoroughHooks, thorough386, thoroughCHA, thoroughSelfTest)
 }
 
-func thorough386(u *Universe, repo string, pc *PropertyCheck, c *Check, verif string) {
+// the GOARCH=386 variant of the repository is loaded and built once per run
+var prog386 struct {
+	repo string
+	p    *Prog
+	err  string
+	done bool
+}
+
+func load386(repo string) (*Prog, string) {
+	if prog386.done && prog386.repo == repo {
+		return prog386.p, prog386.err
+	}
+	prog386.done, prog386.repo, prog386.p, prog386.err = true, repo, nil, ""
 	u32, err := LoadUniverse(repo, "386")
 	if err != nil {
-		c.Unk("thorough", "GOARCH=386 load", "-", "cannot load the package for GOARCH=386: "+err.Error())
-		return
+		prog386.err = "cannot load the package for GOARCH=386: " + err.Error()
+		return nil, prog386.err
 	}
 	src, err := u32.RepoSource()
 	if err != nil {
-		c.Unk("thorough", "GOARCH=386 load", "-", err.Error())
-		return
+		prog386.err = err.Error()
+		return nil, prog386.err
 	}
 	p32, err := u32.Build("repo/386", src)
 	if err != nil {
-		c.Unk("thorough", "GOARCH=386 build", "-", err.Error())
+		prog386.err = err.Error()
+		return nil, prog386.err
+	}
+	prog386.p = p32
+	return p32, ""
+}
+
+// arch386Quick: properties whose reasoning depends on the width of int/uint (no-wrap arithmetic, the accumulator
+// bound, loop classification over word-sized counters); they are re-decided for GOARCH=386 in the quick tier too.
+var arch386Quick = map[string]bool{"C04": true, "C05": true, "C06": true, "C09": true, "C15": true, "C19": true}
+
+func thorough386(u *Universe, repo string, pc *PropertyCheck, c *Check, verif string) {
+	p32, why := load386(repo)
+	if p32 == nil {
+		c.Unk("thorough", "GOARCH=386 load", "-", why)
 		return
 	}
 	c32 := NewCheck(pc.ID, p32)
